@@ -166,6 +166,86 @@ def sql_token(e):
     return (e.kind,) + tuple(sql_token(a) for a in e.args)
 
 
+def v7_run(carve):
+    """a composition of verbs (with or without a table on its left: `t >> v1 >> v2`, `p = v1 >> v2; t >> p`, `t >> (v1 >> v2) >> v3`,
+    a prefix that is extended twice and used again) is the composition of their meanings - against a row-by-row Python oracle
+    on both backends"""
+    import warnings
+
+    import polars as pl
+    import sqlalchemy as sqa
+
+    from .c13 import _enum_outcome
+
+    C = pdt.C
+    data = {"a": [1, 2, None, 4, 2], "b": [10, 20, 30, None, 50]}
+    df = pl.DataFrame(data)
+    eng = sqa.create_engine("sqlite://")
+    df.write_database("t", eng)
+    rows0 = [dict(zip(data, r)) for r in zip(*data.values())]
+
+    # (verb factory, oracle on a list of dicts)
+    def o_mut(rs):
+        return [{**r, "x": None if r["a"] is None else r["a"] + 1} for r in rs]
+
+    def o_fil(rs):
+        return [r for r in rs if r.get("x") is not None and r["x"] > 2]
+
+    def o_sel(rs):
+        return [{"x": r["x"], "b": r["b"]} for r in rs]
+
+    def o_mut2(rs):
+        return [{**r, "y": None if r["b"] is None else r["b"] * 2} for r in rs]
+
+    V = {
+        "mut": (lambda: pdt.mutate(x=C.a + 1), o_mut), "fil": (lambda: pdt.filter(C.x > 2), o_fil), "sel": (lambda: pdt.select(C.x, C.b), o_sel), "mut2": (lambda: pdt.mutate(y=C.b * 2), o_mut2),
+    }
+    n, bad = 0, []
+
+    def rows_of(tbl):
+        out = tbl >> pdt.export(pdt.Polars())
+        return [dict(zip(out.columns, r)) for r in out.rows()]
+
+    def key(rs):
+        return sorted((tuple(r.items()) for r in rs), key=str)
+
+    def expect(label, tbl_fn, names):
+        nonlocal n
+        n += 1
+        want = rows0
+        for nm in names:
+            want = V[nm][1](want)
+        try:
+            got = rows_of(tbl_fn())
+        except Exception as e:  # noqa: BLE001
+            bad.append(f"{label}: raises {type(e).__name__}: {str(e)[:100]}")
+            return
+        if key(got) != key(want) or (got and list(got[0]) != list(want[0])):
+            bad.append(f"{label}: {got}; row-by-row evaluation of {' >> '.join(names)} gives {want}")
+
+    with warnings.catch_warnings():
+        warnings.simplefilter("ignore")
+        for be in ("polars", "sqlite"):
+            mk = (lambda: pdt.Table(df, name="t")) if be == "polars" else (lambda: pdt.Table("t", pdt.SqlAlchemy(eng)))
+            L = f"[{be}] "
+            v = {k: f() for k, (f, _) in V.items()}
+            expect(L + "t >> mut >> fil >> sel", lambda: mk() >> v["mut"] >> v["fil"] >> v["sel"], ["mut", "fil", "sel"])
+            p = v["mut"] >> v["fil"]  # no table on the left
+            expect(L + "p = mut >> fil; t >> p", lambda: mk() >> p, ["mut", "fil"])
+            q = p >> v["sel"]
+            r = p >> v["mut2"]
+            expect(L + "q = p >> sel; t >> q", lambda: mk() >> q, ["mut", "fil", "sel"])
+            expect(L + "r = p >> mut2; t >> r", lambda: mk() >> r, ["mut", "fil", "mut2"])
+            expect(L + "t >> p (after p was extended twice)", lambda: mk() >> p, ["mut", "fil"])
+            expect(L + "t >> mut (after mut was the head of compositions)", lambda: mk() >> v["mut"], ["mut"])
+            expect(L + "t >> (mut >> fil) >> mut2", lambda: mk() >> (v["mut"] >> v["fil"]) >> v["mut2"], ["mut", "fil", "mut2"])
+            expect(L + "t >> q twice (second use)", lambda: mk() >> q, ["mut", "fil", "sel"])
+            w = v["mut2"] >> (v["mut"] >> v["fil"])
+            expect(L + "w = mut2 >> (mut >> fil); t >> w", lambda: mk() >> w, ["mut2", "mut", "fil"])
+            expect(L + "t >> mut >> fil (components reused after all compositions)", lambda: mk() >> v["mut"] >> v["fil"], ["mut", "fil"])
+    return _enum_outcome("compositions of verbs, pre-composed or not, reused or not, compute the composition of the verbs' documented meanings", n, bad)
+
+
 def v1d_run(carve):
     """documented default arguments of the verbs (the implementation's defaults, not only those of the @overload stubs)"""
     import polars as pl
@@ -221,6 +301,8 @@ def obligations(tier):
     # V3/slice: LIMIT/OFFSET composition for symbolic n / offsets (the same VC as C08/S6, stated here for slice_head's own meaning)
     obs.append(Obligation("C02/V3/slice_compose/sql", "V3", "slice_head after slice_head on SQL selects rows [O+k, O+k+min(n, max(L-k,0))) for all L, O, n, k", c08.make_s6("sql"), functions=[H.fn_info(H.sql_backend.SqlImpl.compile_ast)], replayer=c08.replay_s6))
     obs.append(Obligation("C02/V2/slice_compose/polars", "V2", "Polars applies slice(offset, n) to the current frame", c08.make_s6("polars"), functions=[H.fn_info(H.polars_backend.compile_ast)]))
+    obs.append(Obligation("C02/V7/compositions", "V7", "pre-composed and reused verb compositions against a row-by-row oracle (native, both engines)", v7_run,
+                          functions=[H.fn_info(pdt._internal.pipe.pipeable.Pipeable.__rshift__), H.fn_info(pdt._internal.pipe.pipeable.Pipeable.__call__)], bounded="10 compositions of 4 verbs x 2 backends on one 5-row table"))
     obs.append(Obligation("C02/V1d/defaults", "V1", "documented default arguments (offset=0, add=False, distinct=False, validate='m:m', fresh uuids after alias, collect keeps references, strict casts, null fill)", v1d_run,
                           functions=[H.fn_info(getattr(verbs_mod, n)) for n in ("slice_head", "group_by", "union", "join", "alias", "collect", "export")], bounded="one call per default (the default is a property of the signature, not of the data)"))
     return obs
